@@ -124,7 +124,20 @@ def extract():
                 uses_fmt = "self.fmt" in src or "self[" in src or "return self\n" in src + "\n" or src.rstrip().endswith("return self")
                 if uses_fmt and "fmt" not in args[1:]:
                     fmt_dep.append(f"{cname}.{f.name}")
-    return raw, rotg, time, sorted(cached), sorted(fmt_dep), key_copy
+    # per-object caches of position arrays (PosBase)
+    pos = _parse("midgard/data/_position.py")
+    setitem = _func(pos, "__setitem__", "PosBase")
+    clr = _func(pos, "_clear_dependent_caches", "PosBase")
+    share = _func(pos, "_share_memory_with", "PosBase")
+    setattr_ = _func(pos, "__setattr__", "PosBase")
+    transitive = (setitem is not None and "_clear_dependent_caches" in ast.unparse(setitem) and clr is not None
+                  and "_clear_dependent_caches(seen)" in ast.unparse(clr) and "self.clear_cache()" in ast.unparse(clr))
+    links = share is not None and "rows.add_dependency(self)" in ast.unparse(share) and "self.add_dependency(rows)" in ast.unparse(share)
+    getitems = [_func(pos, "__getitem__", c) for c in ("PositionArray", "PositionDeltaArray")]
+    links = links and all(g is not None and "_share_memory_with(rows)" in ast.unparse(g) and "_sliced" not in ast.unparse(g) for g in getitems)
+    refreg = setattr_ is not None and "ref_pos" in ast.unparse(setattr_) and "add_dependency" in ast.unparse(setattr_)
+    obj = dict(transitive=transitive, viewsLinked=links, refPos=refreg)
+    return raw, rotg, time, sorted(cached), sorted(fmt_dep), key_copy, obj
 
 
 def _flags(d):
@@ -133,7 +146,7 @@ def _flags(d):
 
 
 def generate() -> bool:
-    raw, rotg, time, cached, fmt_dep, key_copy = extract()
+    raw, rotg, time, cached, fmt_dep, key_copy, obj = extract()
     out = ["/- GENERATED by translator/extract_cache.py from /repo — do not edit -/", "import Midgard.Model.CacheMachine", "",
            "namespace Midgard.Generated.CacheMech", "open Midgard.CacheMachine", ""]
     for k, d in raw.items():
@@ -150,6 +163,13 @@ def generate() -> bool:
     out.append("")
     out.append("/-- self-keyed caches of the time classes whose result carries `self.fmt` although the key does not -/")
     out.append("def fmtDependentSelfKeyed : List String := [" + ", ".join(lean_str(c) for c in fmt_dep) + "]")
+    b = lambda x: "true" if x else "false"
+    out += ["", "/-- PosBase.__setitem__ clears the caches of all direct and indirect dependents -/",
+            f"def objTransitive : Bool := {b(obj['transitive'])}",
+            "/-- rows taken by basic indexing are registered with their parent and vice versa; no `_sliced` side channel -/",
+            f"def objViewsLinked : Bool := {b(obj['viewsLinked'])}",
+            "/-- a position delta is registered as depending on its ref_pos -/",
+            f"def objRefPosRegistered : Bool := {b(obj['refPos'])}"]
     out += ["", "end Midgard.Generated.CacheMech", ""]
     return write_if_changed("CacheMech.lean", "\n".join(out))
 
